@@ -590,9 +590,13 @@ def worker(ctx):
 
 SPEC = harness.Spec(
     PROP, worker, replay,
-    rule=("case = (Python integer v, type int|nat, form lit|neg|comptime|tuple|list|carg + spelling options: bare/annotated, "
+    rule=("case = (Python integer v, type int|nat, form lit|neg|comptime|tuple|list|carg|traced + spelling options: bare/annotated, "
           "comptime expression as module global / sum of two literals / shifted power / literal, tuple layout, list length "
-          "and position, list read through mutable_copy(), @comptime argument as literal or comptime(...)). Every "
+          "and position, list read through mutable_copy(), @comptime argument as literal or comptime(...); traced (int only) = "
+          "v turned into a Guppy value inside a @guppy.comptime function (returned / z + v / v + z / argument of a Guppy function "
+          "alone, in a tuple, in a list / result(tag, v)) amid 0-3 + 0-2 neighbour statements that turn other Python constants "
+          "(bool, int, float; biased to values equal to v or to each other: True / 1 / 1.0, v / float(v)) into Guppy values in the "
+          "same function, which also reports its constants and final a, b, f (compared with CPython). Every "
           "boundary (-2^63-1, -2^63, -1, 0, 2^63-1, 2^63, 2^64-1, 2^64) x type x applicable form is enumerated each run; "
           "Hypothesis draws v from boundaries +-3, magnitudes up to 2^70 of either sign (biased to 2^60..2^66) and small "
           "ints. Out-of-range cases are compiled alone (must be rejected), in-range cases are emulated in batches and "
@@ -600,6 +604,8 @@ SPEC = harness.Spec(
           "distinct = distinct case dict."),
     assumptions=[
         "a literal without annotation is 'at type int' (Guppy's documented default), so it is judged against the int range",
+        "a Python integer met while tracing a @guppy.comptime function is 'a comptime Python integer at type int' (tracing has no "
+        "type hint, it always picks int); GuppyComptimeError is the user error of that mode (counts as rejected)",
         "`x + 0` / `x == v` for nat use nat-typed helpers (`n0: nat = 0`, `w: nat = v`): a bare literal operand is an int and "
         "would turn the operation into an int operation (coercion, property C16)",
         "selene's result stream reports result_int signed and result_uint unsigned (verified: array[nat] results and "
